@@ -333,7 +333,53 @@ func one(ctx context.Context, w *run.Worker, c *run.Case) {
 		// allocator call of a rotation (store lock held, block list being
 		// extended); the detection's callback runs without the lock.
 		var rotDone chan []*obj
-		if slow != nil && r.Chance(2, 3) {
+		variant := r.Intn(3) // 0: none, 1: parked rotation, 2: parked FindMissing
+		// Variant "detection during a FindMissing": an existence check that
+		// has looked its digests up (first scan, under the read lock) and
+		// still has to refresh some of them is parked on its last lookup
+		// while the slow reader reaches the corruption. What the check had
+		// to refresh lies in the quarantined blocks by the time it resumes:
+		// it must come back missing, not present.
+		type fmRes struct {
+			missing digest.Set
+			err     error
+		}
+		var fmDone chan fmRes
+		var fmOld []st
+		fmParked := false
+		if slow != nil && variant == 2 {
+			sn := s.LBM.VerifSnapshot()
+			popsNow := s.BL.Pops.Load()
+			sb := digest.NewSetBuilder(0)
+			for _, p := range present {
+				if p.o != v.o && p.loc.AbsBlock <= v.loc.AbsBlock && int(p.loc.AbsBlock-popsNow) < sn.OldBlocks && len(fmOld) < 3 {
+					fmOld = append(fmOld, p)
+					sb.Add(p.o.d)
+				}
+			}
+			if len(fmOld) > 0 {
+				set := sb.Build()
+				s.KLM.ParkAt.Store(int64(set.Length()))
+				s.Gate.Close("klm.get")
+				fmDone = make(chan fmRes, 1)
+				go func() {
+					m, err := s.BA.FindMissing(ctx, set)
+					fmDone <- fmRes{m, err}
+				}()
+				for k := 0; k < 50; k++ {
+					run.Settle(20 * time.Second)
+					if s.Gate.Waiting("klm.get") > 0 || len(fmDone) > 0 {
+						break
+					}
+				}
+				fmParked = s.Gate.Waiting("klm.get") > 0
+				finishRot = func() {
+					s.KLM.ParkAt.Store(0)
+					s.Gate.Open("klm.get")
+				}
+			}
+		}
+		if slow != nil && variant == 1 {
 			s.Gate.Close("alloc.newblock")
 			rotDone = make(chan []*obj, 1)
 			finishRot = func() {
@@ -406,8 +452,11 @@ func one(ctx context.Context, w *run.Worker, c *run.Case) {
 			if rerr == io.EOF {
 				served, rerr = true, nil
 			}
-		} else {
+		} else if ac || r.Chance(1, 2) {
 			served, rerr = read(v.o)
+		} else {
+			served, rerr = readVia(ctx, s, v.o, r.Intn(4), r)
+			w.Count("victim_reads_by_other_consumers", 1)
 		}
 		wg.Wait()
 		finishRot()
@@ -436,6 +485,10 @@ func one(ctx context.Context, w *run.Worker, c *run.Case) {
 		if ac && mustDetect && served {
 			c.Violation("localstore.Get:corrupted-object-served", "AC object whose bytes no longer unmarshal was returned")
 		}
+		if !detected && fmDone != nil {
+			<-fmDone
+			fmDone = nil
+		}
 		if !detected {
 			// No detection (AC bytes still parse): the corrupted message may
 			// have been copied by a refresh; drop the victim from the universe.
@@ -454,6 +507,22 @@ func one(ctx context.Context, w *run.Worker, c *run.Case) {
 			continue
 		}
 		w.Count("detections", 1)
+		if fmDone != nil {
+			res := <-fmDone
+			fmDone = nil
+			if fmParked && res.err == nil {
+				w.Count("detections_during_parked_findmissing", 1)
+				miss := map[digest.Digest]bool{}
+				for _, d := range res.missing.Items() {
+					miss[d] = true
+				}
+				for _, p := range fmOld {
+					if !miss[p.o.d] {
+						c.Violation("localstore.FindMissing:object-in-quarantined-block-present", "a FindMissing call that had looked an object of block %d up and still had to refresh it (old block) was resumed after corruption was detected in block %d: it reported the object present instead of missing", p.loc.AbsBlock, v.loc.AbsBlock)
+					}
+				}
+			}
+		}
 		if ac {
 			w.Count("ac_detections", 1)
 		}
@@ -579,4 +648,73 @@ func one(ctx context.Context, w *run.Worker, c *run.Case) {
 		objs = keep
 	}
 	w.Count("rotations", s.BL.Pops.Load())
+	// Every reader the store opened on a block has been closed again: a reader
+	// left open by a failed (corrupted) read pins its block for good, and a
+	// store that loses a block per detection stops accepting uploads.
+	if o, cl := s.Factory.Opens.Load(), s.Factory.Closes.Load(); o != cl {
+		c.Violation("readBufferFactory:reader-not-closed", "at the end of the history %d readers were opened and %d closed; open: %v", o, cl, s.Log.OpenReaders())
+	}
+}
+
+// readVia reads an object through a consumer other than ToByteSlice. It
+// returns (served, err) like read: served = the consumer completed with the
+// right bytes for the range it asked for.
+func readVia(ctx context.Context, s *asm.Store, o *obj, how int, r *gen.Rng) (bool, error) {
+	size := len(o.data)
+	b := s.BA.Get(ctx, o.d)
+	switch how {
+	case 0: // chunk reader at offset 0, mid or exactly the object's size
+		off := []int{0, size / 2, size}[r.Intn(3)]
+		cr := b.ToChunkReader(int64(off), r.Range(1, size+1))
+		var got []byte
+		for {
+			chunk, err := cr.Read()
+			if err == io.EOF {
+				break
+			}
+			if err != nil {
+				cr.Close()
+				return false, err
+			}
+			got = append(got, chunk...)
+		}
+		cr.Close()
+		if string(got) != string(o.data[off:]) {
+			return true, fmt.Errorf("WRONG")
+		}
+		return true, nil
+	case 1: // reader
+		rd := b.ToReader()
+		got, err := io.ReadAll(rd)
+		rd.Close()
+		if err != nil {
+			return false, err
+		}
+		if string(got) != string(o.data) {
+			return true, fmt.Errorf("WRONG")
+		}
+		return true, nil
+	case 2: // writer
+		var sb strings.Builder
+		if err := b.IntoWriter(&sb); err != nil {
+			return false, err
+		}
+		if sb.String() != string(o.data) {
+			return true, fmt.Errorf("WRONG")
+		}
+		return true, nil
+	default: // stream clone, one half discarded
+		b1, b2 := b.CloneStream()
+		done := make(chan struct{})
+		go func() { b2.Discard(); close(done) }()
+		got, err := b1.ToByteSlice(1 << 26)
+		<-done
+		if err != nil {
+			return false, err
+		}
+		if string(got) != string(o.data) {
+			return true, fmt.Errorf("WRONG")
+		}
+		return true, nil
+	}
 }
